@@ -1036,6 +1036,28 @@ def _debug_wrapper(name: str):
 
 
 # ------------------------------------------------------------------------------------------------
+# provisional dependencies: resolved by REBINDING task.depends_on (recognisers of extract_provgen, b-c18, reused — only these three
+# facts are read, so a change elsewhere in provisional.py does not touch C07's tie)
+# ------------------------------------------------------------------------------------------------
+
+def _provisional_facts():
+    import extract_provgen as pg
+
+    def flat(t):
+        if isinstance(t, tuple):
+            return " ".join(flat(x) for x in t)
+        return str(t)
+    try:
+        setup = pg._top_func("provisional.py", "pytask_execute_task_setup")
+        steps = pg._hook_steps(setup, "provisional.pytask_execute_task_setup", allow_generator_return=False)
+        node = pg._node_steps()
+        kind = pg._directory_node()[0]
+    except Exception as e:  # noqa: BLE001
+        raise _err(f"provisional setup: {e}") from None
+    return [flat(x) for x in steps], [flat(x) for x in node], flat(kind)
+
+
+# ------------------------------------------------------------------------------------------------
 # tree_util.py wrappers
 # ------------------------------------------------------------------------------------------------
 
@@ -1115,6 +1137,7 @@ def argsgen_section() -> list[str]:
     tw = _tree_wrappers()
     meta_existing, meta_created = _task_decorator_facts()
     wpm, wtr = _debug_wrapper("wrap_function_for_post_mortem_debugging"), _debug_wrapper("wrap_function_for_tracing")
+    pv_setup, pv_node, pv_kind = _provisional_facts()
 
     def wrap(t):
         return "⟨" + ", ".join(b(x) for x in t) + "⟩"
@@ -1176,6 +1199,11 @@ def argsgen_section() -> list[str]:
         "carries `pytask_meta` (a `@pytask.mark.*` was applied first) and in the branch that creates `CollectionMetadata`. -/",
         f"def taskMetaExisting : List (String × String) := {pairs(meta_existing)}",
         f"def taskMetaCreated : List (String × String) := {pairs(meta_created)}",
+        "/-- `provisional.pytask_execute_task_setup` (an ASSIGNMENT `task.depends_on = tree_map…`, then the DAG is re-created for registered",
+        "tasks), `collect_provisional_nodes`, `DirectoryNode.collect`; read with the recognisers of extract_provgen. -/",
+        f"def provSetupSteps : List String := {strs(pv_setup)}",
+        f"def provNodeSteps : List String := {strs(pv_node)}",
+        f"def provDirCollect : String := {h.lean_str(pv_kind)}",
         "/-- `debugging.py`: the wrappers installed as `task.function` by `pdb=True` / `trace=True`. -/",
         f"def wrapPostMortem : Wrap := {wrap(wpm)}",
         f"def wrapTracing : Wrap := {wrap(wtr)}",
